@@ -9,6 +9,7 @@
     incStore  self.next_sequence_number = (v + 1) % 64    (store, OUTSIDE the lock)
     hdrLoad   header.rq_seq = self.next_sequence_number   (load,  OUTSIDE the lock)
     acquire   with self.transaction_lock:                 (blocks while held)
+    actLoad   if self.session.activated:                  (IpmiMsg.pack: the bump below only when activated)
     ssLoad    v = session.sequence_number                 } self.sequence_number += 1
     ssStore   session.sequence_number = v + 1             }
     ssChk     if session.sequence_number > 0xffffffff
@@ -22,8 +23,33 @@
 
   The BMC answers every datagram at once: the reply (tagged with the serial number of the
   datagram it answers, echoing its request sequence and command) is appended to the socket's
-  receive queue.  The keep-alive thread is one more thread running the same program
-  (`_get_device_id` → `send_and_receive` → `_send_and_receive`).
+  receive queue.
+
+  Three kinds of thread run that call path:
+
+  * `worker`     an application thread making `todo` calls;
+  * `keepAlive`  the loop of `call_repeatedly`:  `while not stopped.wait(interval): func()` with
+                 `func = _get_device_id` (→ `send_and_receive` → `_send_and_receive`):
+
+      kaWait    stopped.wait(interval)   one atomic decision: the flag is set → the loop (and the thread) ends;
+                                         otherwise the interval elapses ("tick", at most `todo` more times) and
+                                         the call path above is entered — WITHOUT looking at the flag again
+                                         (an exception other than socket.timeout ends the thread)
+
+  * `closer`     an application thread that, after its calls, tears the session down
+                 (`Rmcp.close_session`).  It first waits for the other application threads (the
+                 application's own discipline: nobody uses an interface that is being closed):
+
+      await     (application) join the other workers
+      stopSet   if self._stop_keep_alive: self._stop_keep_alive()       → stopped.set()
+      joinKa        … and, in the variant `join` (fixes/C14-1.diff), t.join(): blocks until the keep-alive
+                    thread has terminated.  The closer does NOT hold the lock here.
+      chkAct    if self._session.activated is False: return
+                Close Session through the same locked call path (command 3Ch)
+      actStore  self._session.activated = False                         (outside the lock)
+
+  `Sys.join` selects the stopper: `false` = as shipped (`return stopped.set`), `true` = set and join.
+
 
   `step s t` runs the next atomic action of thread `t` (`none`: no such thread, finished, or
   blocked on the lock); `label s t` is the shared access that action performs, with the
@@ -57,18 +83,31 @@ structure Shape where
   sessAdd : Nat                     -- `Session.increment_sequence_number`: += sessAdd; if > sessLimit: = sessWrapTo
   sessLimit : Nat
   sessWrapTo : Nat
+  -- session teardown
+  loopWaitsThenCalls : Bool         -- call_repeatedly: thread running `while not stopped.wait(interval): try: func(*args) …`
+  loopSwallowsOnlyTimeout : Bool    -- … `except socket.timeout: pass` and nothing else
+  stopperSets : Bool                -- the returned stopper sets the event
+  stopperJoins : Bool               -- … and then joins the thread (unless called from that thread): the VARIANT
+  closeStopsFirst : Bool            -- close_session: first `if self._stop_keep_alive: self._stop_keep_alive()`
+  closeChecksActivated : Bool       -- then `if self._session.activated is False: return`
+  closeLocked : Bool                -- the Close Session request goes through `send_and_receive` (→ the lock)
+  closeDeactivatesLast : Bool       -- last statement: `self._session.activated = False`; no other store to it
 deriving DecidableEq, Repr
 
 /-- The shape the step function below hard-wires: the IPMB sequence number is bumped and read before
 the lock (`idle`, `incStore`, `hdrLoad`), one lock block (`acquire` … `release`) holds the session
 sequence bump and the packing (`ssLoad` … `ssHdr`, inside `_send_ipmi_msg`), the one transmission
 (`send`) and the reception (`recv`, reading `_q` first); nothing is put back into `_q`; every caller,
-the keep-alive included, runs this program. -/
-def Shape.expected : Shape :=
+the keep-alive included, runs this program; the keep-alive loop and `close_session` are the ones described
+above.  The one thing left open is what the stopper returned by `call_repeatedly` does after setting the
+event: `join = false` as shipped, `join = true` with fixes/C14-1.diff. -/
+def Shape.expected (join : Bool) : Shape :=
   { lockBlocks := 1, incFirst := true, incCalls := 1, ioOutsideLock := 0, sendsInLock := 1, recvsInLock := 1,
     qGetInLock := 1, qPut := 0, packInSar := 0, packInSend := 1, sendBuildsIpmiMsg := true, packIncs := 1,
     packIncGuardedByActivated := true, seqAdd := 1, seqMod := 64, keepAliveLocked := true, rawLocked := true,
-    msgLocked := true, sessAdd := 1, sessLimit := 0xffffffff, sessWrapTo := 1 }
+    msgLocked := true, sessAdd := 1, sessLimit := 0xffffffff, sessWrapTo := 1,
+    loopWaitsThenCalls := true, loopSwallowsOnlyTimeout := true, stopperSets := true, stopperJoins := join,
+    closeStopsFirst := true, closeChecksActivated := true, closeLocked := true, closeDeactivatesLast := true }
 
 /-- A reply waiting in the socket (or in `Rmcp._q`). -/
 structure Reply where
@@ -79,8 +118,14 @@ deriving DecidableEq, Repr
 
 inductive PC where
   | idle | incStore | hdrLoad | acquire
-  | ssLoad | ssStore | ssChk | ssWrap | ssHdr (k : Nat) | send | recv | requeue | release
+  | actLoad | ssLoad | ssStore | ssChk | ssWrap | ssHdr (k : Nat) | send | recv | requeue | release
+  | kaWait
+  | await | stopSet | joinKa | chkAct | actStore
   | done
+deriving DecidableEq, Repr
+
+inductive Kind where
+  | worker | keepAlive | closer
 deriving DecidableEq, Repr
 
 /-- Result of one call of `_send_and_receive`. -/
@@ -91,8 +136,11 @@ deriving DecidableEq, Repr
 
 structure Thr where
   pc : PC
-  todo : Nat                   -- calls still to make (including the one in progress)
+  todo : Nat                   -- worker: calls still to make (including the one in progress); closer: the same,
+                               -- Close Session counted as one more; keep-alive: times the interval may still elapse
   cmd : Nat                    -- the command this thread issues
+  kind : Kind := .worker
+  closing : Bool := false      -- closer only: past the barrier and past the stopper (→ Close Session → deactivate)
   reg : Nat := 0               -- value loaded last
   hdr : Nat := 0               -- header.rq_seq
   mine : Nat := 0              -- serial of the datagram sent in this call
@@ -110,17 +158,37 @@ structure Sys where
   wire : List WEv              -- wire log, NEWEST FIRST
   thr : List Thr
   xl : Nat                     -- extra loads of the session sequence while packing (MD5: 1)
+  activated : Bool := true     -- Session.activated
+  stopped : Bool := false      -- the Event of call_repeatedly
+  join : Bool := true          -- variant: the stopper joins the keep-alive thread
 deriving Repr
 
 def inLock : PC → Bool
-  | .ssLoad | .ssStore | .ssChk | .ssWrap | .ssHdr _ | .send | .recv | .requeue | .release => true
+  | .actLoad | .ssLoad | .ssStore | .ssChk | .ssWrap | .ssHdr _ | .send | .recv | .requeue | .release => true
   | _ => false
 
 def Sys.upd (s : Sys) (t : Nat) (th : Thr) : Sys := { s with thr := s.thr.set t th }
 
+def CallRes.isOk : CallRes → Bool
+  | .ok _ _ => true
+  | .retryError _ => false
+
+/-- Where a thread goes when a call returns (`ok`) or raises. -/
+def nextPc (th : Thr) (ok : Bool) : PC :=
+  match th.kind with
+  | .keepAlive => if ok then .kaWait else .done           -- RetryError is not caught by the loop: the thread dies
+  | .worker => if th.todo - 1 = 0 then .done else .idle
+  | .closer =>
+    if th.closing then (if ok then .actStore else .done)  -- an exception leaves close_session before the store
+    else if th.todo - 1 = 0 then .done else if th.todo - 1 = 1 then .await else .idle
+
 def afterCall (th : Thr) (r : CallRes) : Thr :=
-  { th with results := r :: th.results, todo := th.todo - 1, got := none,
-            pc := if th.todo - 1 = 0 then .done else .idle }
+  { th with results := r :: th.results, got := none,
+            todo := if th.kind = .keepAlive then th.todo else th.todo - 1,
+            pc := nextPc th r.isOk }
+
+def allDone (k : Kind) (l : List Thr) : Bool := l.all fun x => x.kind != k || x.pc == .done
+def hasKa (l : List Thr) : Bool := l.any fun x => x.kind == .keepAlive
 
 /-- The action of thread `t` (whose record is `th`) at each program point. -/
 def stepThr (s : Sys) (t : Nat) (th : Thr) : Option Sys :=
@@ -130,8 +198,11 @@ def stepThr (s : Sys) (t : Nat) (th : Thr) : Option Sys :=
   | .hdrLoad => some (s.upd t { th with hdr := s.nextSeq, pc := .acquire })
   | .acquire =>
     match s.lock with
-    | none => some ({ s with lock := some t }.upd t { th with pc := .ssLoad })
+    | none => some ({ s with lock := some t }.upd t { th with pc := .actLoad })
     | some _ => none
+  | .actLoad =>
+    some (s.upd t { th with reg := if s.activated then 1 else 0,
+                            pc := if s.activated then .ssLoad else .ssHdr s.xl })
   | .ssLoad => some (s.upd t { th with reg := s.sessSeq, pc := .ssStore })
   | .ssStore => some ({ s with sessSeq := th.reg + 1 }.upd t { th with pc := .ssChk })
   | .ssChk =>
@@ -163,6 +234,23 @@ def stepThr (s : Sys) (t : Nat) (th : Thr) : Option Sys :=
       (afterCall th (match th.got with
         | some r => .ok th.mine r.serial
         | none => .retryError th.mine)))
+  | .kaWait =>
+    if s.stopped then some (s.upd t { th with pc := .done })
+    else if th.todo = 0 then none
+    else some (s.upd t { th with todo := th.todo - 1, pc := .idle })
+  | .await =>
+    if allDone .worker s.thr then
+      some (s.upd t (if hasKa s.thr then { th with pc := .stopSet } else { th with pc := .chkAct, closing := true }))
+    else none
+  | .stopSet =>
+    some ({ s with stopped := true }.upd t
+      (if s.join then { th with pc := .joinKa } else { th with pc := .chkAct, closing := true }))
+  | .joinKa =>
+    if allDone .keepAlive s.thr then some (s.upd t { th with pc := .chkAct, closing := true }) else none
+  | .chkAct =>
+    some (s.upd t (if s.activated then { th with cmd := PyIpmi.Spec.Threads.closeCmd, pc := .idle }
+                   else { th with todo := 0, pc := .done }))
+  | .actStore => some ({ s with activated := false }.upd t { th with pc := .done })
   | .done => none
 
 def step (s : Sys) (t : Nat) : Option Sys :=
@@ -175,6 +263,7 @@ inductive Act where
   | ldNS (v : Nat) | stNS (v : Nat) | acq | rel | ldSS (v : Nat) | stSS (v : Nat)
   | tx (serial seq rq cmd : Nat) | rx (serial : Nat) | rxTimeout
   | qget (serial : Nat) | qput (serial : Nat) | tau
+  | ldAct (v : Bool) | stAct (v : Bool) | tick | kaExit | await | stopSet | join
 deriving DecidableEq, Repr
 
 def labelThr (s : Sys) (th : Thr) : Option Act :=
@@ -183,6 +272,7 @@ def labelThr (s : Sys) (th : Thr) : Option Act :=
   | .incStore => some (.stNS ((th.reg + 1) % 64))
   | .hdrLoad => some (.ldNS s.nextSeq)
   | .acquire => if s.lock.isNone then some .acq else none
+  | .actLoad => some (.ldAct s.activated)
   | .ssLoad => some (.ldSS s.sessSeq)
   | .ssStore => some (.stSS (th.reg + 1))
   | .ssChk => some (.ldSS s.sessSeq)
@@ -196,6 +286,12 @@ def labelThr (s : Sys) (th : Thr) : Option Act :=
     | [], [] => some .rxTimeout
   | .requeue => some .tau
   | .release => some .rel
+  | .kaWait => if s.stopped then some .kaExit else if th.todo = 0 then none else some .tick
+  | .await => if allDone .worker s.thr then some .await else none
+  | .stopSet => some .stopSet
+  | .joinKa => if allDone .keepAlive s.thr then some .join else none
+  | .chkAct => some (.ldAct s.activated)
+  | .actStore => some (.stAct false)
   | .done => none
 
 def label (s : Sys) (t : Nat) : Option Act :=
@@ -224,14 +320,23 @@ structure Cfg where
   nextSeq : Nat                  -- Rmcp.next_sequence_number after session set-up
   sessSeq : Nat                  -- initial inbound sequence number handed out by the BMC
   xl : Nat
-  threads : List (Nat × Nat)     -- per thread: (number of calls, command)
+  threads : List (Nat × Nat)     -- per application thread: (number of calls, command)
+  ka : Option Nat := none        -- the keep-alive thread (it comes last): how often its interval may elapse
+  closer : Option Nat := none    -- the application thread that ends with `close_session`
+  join : Bool := true            -- the stopper of `call_repeatedly` joins the thread (false: as shipped)
 
-def initThr (p : Nat × Nat) : Thr :=
-  { pc := if p.1 = 0 then .done else .idle, todo := p.1, cmd := p.2 }
+def initThr (closer : Option Nat) (i : Nat) (p : Nat × Nat) : Thr :=
+  if closer = some i then
+    { pc := if p.1 = 0 then .await else .idle, todo := p.1 + 1, cmd := p.2, kind := .closer }
+  else
+    { pc := if p.1 = 0 then .done else .idle, todo := p.1, cmd := p.2 }
+
+def initKa (n : Nat) : Thr := { pc := .kaWait, todo := n, cmd := 1, kind := .keepAlive }
 
 def init (c : Cfg) : Sys :=
   { nextSeq := c.nextSeq, sessSeq := c.sessSeq, lock := none, q := [], sock := [], serial := 0,
-    wire := [], thr := c.threads.map initThr, xl := c.xl }
+    wire := [], xl := c.xl, join := c.join,
+    thr := c.threads.mapIdx (initThr c.closer) ++ (match c.ka with | some n => [initKa n] | none => []) }
 
 /-- The wire log in transmission order. -/
 def Sys.wireChron (s : Sys) : List WEv := s.wire.reverse
